@@ -62,6 +62,7 @@ type cfg struct {
 	Default  int      `json:"default_options_at"` // position at which DefaultOptions() is applied (-1: not used)
 	RouteMws [][]int  `json:"route_mws"`          // per route: ids of its own middleware
 	Updated  []int    `json:"updated"`            // route 0 is updated with this list (nil: no update)
+	PerRoute bool     `json:"per_route_slash"`    // trailing-slash redirect enabled on the routes only, not router-wide
 }
 
 func (c cfg) String() string {
@@ -85,7 +86,10 @@ func build(c cfg) (*fox.Router, error) {
 	if c.Default >= len(c.Globals) {
 		opts = append(opts, fox.DefaultOptions())
 	}
-	opts = append(opts, fox.WithNoMethod(true), fox.WithAutoOptions(true), fox.WithRedirectTrailingSlash(true))
+	opts = append(opts, fox.WithNoMethod(true), fox.WithAutoOptions(true))
+	if !c.PerRoute {
+		opts = append(opts, fox.WithRedirectTrailingSlash(true))
+	}
 	return fox.New(opts...)
 }
 
@@ -145,8 +149,19 @@ func check(run *kit.Run, c cfg) {
 			return
 		}
 		var routes []*fox.Route
+		slash := func(o []fox.RouteOption) []fox.RouteOption {
+			if c.PerRoute {
+				return append(o, fox.WithRedirectTrailingSlash(true))
+			}
+			return o
+		}
+		// a route served by ignoring the trailing slash runs the same chain as a direct match
+		if _, err := f.Handle("GET", "/ig/", handler, append(routeOpts([]int{300}), fox.WithIgnoreTrailingSlash(true))...); err != nil {
+			run.Violate("handle|"+id, fmt.Sprintf("Handle failed: %v", err), c)
+			return
+		}
 		for i, ids := range c.RouteMws {
-			rte, err := f.Handle("GET", fmt.Sprintf("/r%d", i), handler, routeOpts(ids)...)
+			rte, err := f.Handle("GET", fmt.Sprintf("/r%d", i), handler, slash(routeOpts(ids))...)
 			if err != nil {
 				run.Violate("handle|"+id, fmt.Sprintf("Handle failed: %v", err), c)
 				return
@@ -155,7 +170,7 @@ func check(run *kit.Run, c cfg) {
 		}
 		mwsOf := func(i int) []int { return c.RouteMws[i] }
 		if c.Updated != nil && len(routes) > 0 {
-			rte, err := f.Update("GET", "/r0", handler, routeOpts(c.Updated)...)
+			rte, err := f.Update("GET", "/r0", handler, slash(routeOpts(c.Updated))...)
 			if err != nil {
 				run.Violate("update|"+id, fmt.Sprintf("Update failed: %v", err), c)
 				return
@@ -196,6 +211,13 @@ func check(run *kit.Run, c cfg) {
 			routes[i].HandleMiddleware(tc)
 			if want := append(append([]int(nil), mwsOf(i)...), handlerID); !same(*t, want) {
 				fail(fmt.Sprintf("Route.HandleMiddleware /r%d", i), *t, want)
+			}
+		}
+		for _, p := range []string{"/ig/", "/ig"} {
+			got, want := serve("GET", p), expected(c, fox.RouteHandler, []int{300})
+			run.Case(id+"|ignored-slash"+p, nonTrivial)
+			if !same(got, want) {
+				fail("route /ig/ requested as "+p, got, want)
 			}
 		}
 		if len(routes) > 0 {
@@ -249,7 +271,7 @@ func main() {
 	var cfgs []cfg
 	var rec func(cur []global)
 	rec = func(cur []global) {
-		cfgs = append(cfgs, cfg{Globals: append([]global(nil), cur...), Default: -1, RouteMws: [][]int{{100, 101}, nil}})
+		cfgs = append(cfgs, cfg{Globals: append([]global(nil), cur...), Default: -1, RouteMws: [][]int{{100, 101}, nil}, PerRoute: len(cfgs)%2 == 1})
 		if len(cur) == maxK {
 			return
 		}
@@ -268,7 +290,7 @@ func main() {
 	run.Parallel(n/20, func(b int) {
 		r := run.Rand(uint64(b))
 		for i := 0; i < 20; i++ {
-			c := cfg{Default: -1}
+			c := cfg{Default: -1, PerRoute: r.IntN(2) == 0}
 			ng := r.IntN(7)
 			for j := 0; j < ng; j++ {
 				c.Globals = append(c.Globals, global{ID: j + 1, Scope: masks[r.IntN(len(masks))], Plain: r.IntN(4) == 0})
@@ -298,7 +320,7 @@ func main() {
 // the observable rule is that the traced ids keep their relative order and count whatever the position of DefaultOptions.
 func defaults(run *kit.Run) {
 	for pos := 0; pos <= 3; pos++ {
-		c := cfg{Default: pos, RouteMws: [][]int{{100}, nil}, Globals: []global{{ID: 1, Scope: fox.RouteHandler | fox.NoRouteHandler}, {ID: 2, Plain: true}, {ID: 3, Scope: fox.OptionsHandler | fox.RedirectHandler | fox.NoMethodHandler}}}
+		c := cfg{Default: pos, PerRoute: pos%2 == 1, RouteMws: [][]int{{100}, nil}, Globals: []global{{ID: 1, Scope: fox.RouteHandler | fox.NoRouteHandler}, {ID: 2, Plain: true}, {ID: 3, Scope: fox.OptionsHandler | fox.RedirectHandler | fox.NoMethodHandler}}}
 		check(run, c)
 		run.Count("default_options_configurations", 1)
 	}
